@@ -101,7 +101,7 @@ func errClass(err error) int64 {
 		{"does not contain a unique identifier", 8}, {"does not contain an authenticator", 9},
 		{"unexpected response ID", 10}, {"unexpected nonce length", 12},
 		{"unexpected type or structure", 14}, {"unexpected response structure", 15},
-		{"unexpected system clock behavior", 18},
+		{"unexpected system clock behavior", 18}, {"no successful measurement", 19},
 	} {
 		if strings.Contains(m, p.s) {
 			return p.c
@@ -628,7 +628,7 @@ func main() {
 					w.runHistSCION(genHistSCION(r, j%25 == 3), "scion.hist")
 				}
 			}
-			if i == 0 && os.Getenv("C05_SKIP_ALLFAIL") == "" {
+			if i == 0 {
 				for j := 0; j < 3; j++ {
 					w.runHistSCION(genAllFailSCION(r), "scion.allfail")
 				}
